@@ -131,5 +131,12 @@ pub mod memmap2 {
     impl MmapMut {
         #[verifier::external_body]
         pub fn len(&self) -> (r: usize) ensures r == self@.len { unimplemented!() }
+        /// (unsafe in memmap2; R9' drops the keyword)  ASSUMED: maps the whole file read/write;
+        /// mapping a regular file that was just pre-allocated does not fail
+        #[verifier::external_body]
+        pub fn map_mut(f: &crate::shims::std::fs::File, Tracked(w): Tracked<&crate::spec::World>) -> (r: crate::shims::std::io::Result<MmapMut>)
+            requires w.fs.files.contains_key(f@.path)
+            ensures r is Ok, r->Ok_0@ == (MmapV { path: f@.path, len: w.fs.files[f@.path].len() })
+        { unimplemented!() }
     }
 }
